@@ -1,43 +1,68 @@
 /-
 C18 — Affected-version decisions follow the OSV range rules.
 Property theorems only; helper lemmas live in `Scalibr.Proofs.Vulns`.
+
+The model (`Scalibr.Model.Vulns`) is `vulns.IsAffected` AFTER the repair "fix: IsAffected orders events on one version
+fixed, introduced, last_affected …". The specification is the order-free sentence `osvDecl`; well-formedness `WF` admits
+several events on one version as far as they can be ordered to alternate unambiguously (see `C18_wf_tie_shapes`).
 -/
 import Scalibr.Proofs.Vulns
 import Scalibr.Spec.VersionOrder
 namespace Scalibr.Vulns
 
-/-- For a well-formed range, listed in any order, the code's sort + binary-search decision is the OSV
-evaluation. No bound on the number of events or on versions. -/
-theorem C18_range (es : List Ev) (q : Nat) (h : WF es = true) :
-    rangeDecision es q = osvRange es q :=
-  codeDecision_eq_osvScan (sortEvents es) q h
+/-- **The property's own sentence is the OSV evaluation loop.** For EVERY event list (well formed or not), listed in
+any order: running the OSV loop over the events ordered by (version, kind: fixed, introduced, last_affected) says
+"vulnerable" exactly when the version lies in an interval opened by an `introduced` event `i` at or below it that no
+`fixed` event in `(i, q]` and no `last_affected` event in `[i, q)` closes. (Before ties were admitted this needed `WF`;
+with the total order on events it does not.) -/
+theorem C18_decl (es : List Ev) (q : Nat) : osvRange es q = osvDecl es q :=
+  osvRange_eq_osvDecl es q
 
-/-- The order in which a range lists its events is irrelevant (events of a well-formed range have
-pairwise distinct versions): model, specification and well-formedness all see the same sorted list. -/
-theorem C18_listing_order (es es' : List Ev) (hp : es.Perm es')
-    (hd : ∀ a b, a ∈ es → b ∈ es → a.v = b.v → a = b) :
+/-- For a well-formed range, listed in any order, the code's sort + binary-search + exact-hit-scan decision is the OSV
+evaluation loop. No bound on the number of events or on versions; events may share a version. -/
+theorem C18_range (es : List Ev) (q : Nat) (h : WF es = true) :
+    rangeDecision es q = osvRange es q := by
+  unfold rangeDecision osvRange
+  rw [sortEvents_eq_osvOrder]
+  exact codeDecision_eq_osvScan (osvOrder es) q h
+
+/-- … and therefore the specification `osvDecl`. -/
+theorem C18_range_decl (es : List Ev) (q : Nat) (h : WF es = true) :
+    rangeDecision es q = osvDecl es q := by
+  rw [C18_range es q h, C18_decl]
+
+/-- The order in which a range lists its events is irrelevant — now without any side condition: the comparator
+separates any two different events, so every listing of the same events sorts to the same list (and any correct sort,
+stable or not, returns it). -/
+theorem C18_listing_order (es es' : List Ev) (hp : es.Perm es') :
     sortEvents es = sortEvents es' := by
   apply isort_eq_of_perm evLt evLt_asymm evLt_trans es es' hp
-  intro a b ha hb h1 h2
-  apply hd a b ha hb
-  unfold evLt at h1 h2; simp at h1 h2; omega
+  intro a b _ _ h1 h2
+  exact evLt_sep a b h1 h2
 
-theorem C18_listing_order_decision (es es' : List Ev) (q : Nat) (hp : es.Perm es')
-    (hd : ∀ a b, a ∈ es → b ∈ es → a.v = b.v → a = b) :
-    rangeDecision es q = rangeDecision es' q ∧ osvRange es q = osvRange es' q ∧ WF es = WF es' := by
-  unfold rangeDecision osvRange WF
-  rw [C18_listing_order es es' hp hd]
-  exact ⟨rfl, rfl, rfl⟩
+theorem C18_listing_order_decision (es es' : List Ev) (q : Nat) (hp : es.Perm es') :
+    rangeDecision es q = rangeDecision es' q ∧ osvRange es q = osvRange es' q ∧ WF es = WF es' ∧
+      osvDecl es q = osvDecl es' q := by
+  have h := C18_listing_order es es' hp
+  have h' : osvOrder es = osvOrder es' := by rw [← sortEvents_eq_osvOrder, ← sortEvents_eq_osvOrder, h]
+  refine ⟨?_, ?_, ?_, ?_⟩
+  · unfold rangeDecision; rw [h]
+  · unfold osvRange; rw [h']
+  · unfold WF; rw [h']
+  · rw [osvDecl_eq, osvDecl_eq]; exact declOn_perm q es es' hp
 
-/-- **The property's own sentence.** For a well-formed range, listed in any order, the OSV evaluation loop says
-"vulnerable" exactly when the version lies in an interval opened by an `introduced` event at or below it and not closed
-by a later `fixed` event at or below it or a later `last_affected` event strictly below it. -/
-theorem C18_decl (es : List Ev) (q : Nat) (h : WF es = true) : osvRange es q = osvDecl es q := by
-  unfold osvRange osvScan
-  rw [osvDecl_eq, declOn_perm q es (sortEvents es) (isort_perm evLt es).symm]
-  have hi := incr_of_WFfrom true none (sortEvents es) h
-  rw [fold_eq_decl q none (sortEvents es) false hi]
-  simp
+/-! ### the same statements over the ecosystem's comparison on version strings -/
+
+open Scalibr.Upgrade in
+/-- the comparator of `osvRangeC` is the rank comparator, on the versions at hand -/
+theorem cmp_lt_eq_evLt {α : Type} (cmp : α → α → Ordering) (vs : List α) (rank : α → Nat)
+    (hr : RankFor cmp vs rank) (a b : EvS α) (ha : a.v ∈ vs) (hb : b.v ∈ vs) :
+    (cmp a.v b.v == .lt || (cmp a.v b.v == .eq && kindBefore a.k b.k)) = evLt (toRank rank a) (toRank rank b) := by
+  rw [hr a.v ha b.v hb, evLt_eq_osvBefore]
+  unfold osvBefore toRank
+  simp only []
+  cases h : compare (rank a.v) (rank b.v) <;>
+    simp_all [Nat.compare_eq_lt, Nat.compare_eq_eq, Nat.compare_eq_gt] <;> omega
 
 open Scalibr.Upgrade in
 /-- **C18 over the ecosystem's comparison.** Let `cmp` be the comparison `IsAffected` uses (with "0" below
@@ -49,19 +74,18 @@ theorem C18_range_cmp {α : Type} (cmp : α → α → Ordering) (vs : List α) 
     (hes : ∀ e ∈ es, e.v ∈ vs) (hq : q ∈ vs) (hwf : WF (es.map (toRank rank)) = true) :
     rangeDecision (es.map (toRank rank)) (rank q) = osvRangeC cmp es q := by
   rw [C18_range _ _ hwf]
-  unfold osvRange osvRangeC osvScan sortEvents
-  have hlt : ∀ a ∈ es, ∀ b ∈ es, (cmp a.v b.v == .lt) = evLt (toRank rank a) (toRank rank b) := by
-    intro a ha b hb
-    rw [hr a.v (hes a ha) b.v (hes b hb)]
-    unfold evLt toRank
-    simp only []
-    cases h : compare (rank a.v) (rank b.v) <;>
-      simp_all [Nat.compare_eq_lt, Nat.compare_eq_eq, Nat.compare_eq_gt] <;> omega
+  unfold osvRange osvRangeC osvScan
+  rw [← sortEvents_eq_osvOrder]
+  unfold sortEvents
+  have hlt : ∀ a ∈ es, ∀ b ∈ es, (cmp a.v b.v == .lt || (cmp a.v b.v == .eq && kindBefore a.k b.k))
+      = evLt (toRank rank a) (toRank rank b) :=
+    fun a ha b hb => cmp_lt_eq_evLt cmp vs rank hr a b (hes a ha) (hes b hb)
   rw [← isort_mapK evLt (toRank rank) es,
-      ← isort_congr_mem (fun a b => cmp a.v b.v == .lt) (fun a b => evLt (toRank rank a) (toRank rank b)) es hlt,
+      ← isort_congr_mem (fun a b => cmp a.v b.v == .lt || (cmp a.v b.v == .eq && kindBefore a.k b.k))
+          (fun a b => evLt (toRank rank a) (toRank rank b)) es hlt,
       List.foldl_map]
-  have hperm := isort_perm (fun a b : EvS α => cmp a.v b.v == .lt) es
-  generalize isort (fun a b : EvS α => cmp a.v b.v == .lt) es = l at hperm
+  have hperm := isort_perm (fun a b : EvS α => cmp a.v b.v == .lt || (cmp a.v b.v == .eq && kindBefore a.k b.k)) es
+  generalize isort (fun a b : EvS α => cmp a.v b.v == .lt || (cmp a.v b.v == .eq && kindBefore a.k b.k)) es = l at hperm
   have hl : ∀ e ∈ l, e.v ∈ vs := fun e he => hes e (hperm.mem_iff.mp he)
   clear hperm
   generalize false = acc
@@ -79,16 +103,55 @@ theorem C18_range_cmp {α : Type} (cmp : α → α → Ordering) (vs : List α) 
     rw [hstep]
     exact ih (fun x hx => hl x (by simp [hx])) _
 
+open Scalibr.Upgrade in
+/-- the order-free specification stated with `cmp` itself is `osvDecl` on the ranks (no well-formedness needed) -/
+theorem C18_decl_cmp {α : Type} (cmp : α → α → Ordering) (vs : List α) (rank : α → Nat)
+    (hr : RankFor cmp vs rank) (es : List (EvS α)) (q : α) (hes : ∀ e ∈ es, e.v ∈ vs) (hq : q ∈ vs) :
+    osvDeclC cmp es q = osvDecl (es.map (toRank rank)) (rank q) := by
+  unfold osvDeclC osvDecl
+  rw [List.any_map]
+  apply any_congr_mem
+  intro i hi
+  have hiq := hr i.v (hes i hi) q hq
+  have hinner : (es.any fun c => (c.k = .fixed && cmp i.v c.v == .lt && cmp c.v q != .gt) ||
+        (c.k = .last && cmp i.v c.v != .gt && cmp c.v q == .lt)) =
+      ((es.map (toRank rank)).any fun c => (c.k = .fixed && (toRank rank i).v < c.v && c.v ≤ rank q) ||
+        (c.k = .last && (toRank rank i).v ≤ c.v && c.v < rank q)) := by
+    rw [List.any_map]
+    apply any_congr_mem
+    intro c hc
+    have h1 := hr i.v (hes i hi) c.v (hes c hc)
+    have h2 := hr c.v (hes c hc) q hq
+    simp only [Function.comp, toRank, h1, h2]
+    cases c.k <;> simp only [] <;>
+      (cases h : compare (rank i.v) (rank c.v) <;> cases h' : compare (rank c.v) (rank q) <;>
+        simp_all [Nat.compare_eq_lt, Nat.compare_eq_eq, Nat.compare_eq_gt] <;> omega)
+  rw [hinner]
+  simp only [Function.comp, toRank, hiq]
+  congr 1
+  cases h : compare (rank i.v) (rank q) <;>
+    simp_all [Nat.compare_eq_lt, Nat.compare_eq_eq, Nat.compare_eq_gt] <;> omega
+
+open Scalibr.Upgrade in
+/-- the code's decision is the order-free specification stated with `cmp` itself -/
+theorem C18_range_decl_cmp {α : Type} (cmp : α → α → Ordering) (vs : List α) (rank : α → Nat)
+    (hr : RankFor cmp vs rank) (es : List (EvS α)) (q : α)
+    (hes : ∀ e ∈ es, e.v ∈ vs) (hq : q ∈ vs) (hwf : WF (es.map (toRank rank)) = true) :
+    rangeDecision (es.map (toRank rank)) (rank q) = osvDeclC cmp es q := by
+  rw [C18_decl_cmp cmp vs rank hr es q hes hq, C18_range_decl _ _ hwf]
+
 /-- non-vacuity of `C18_range_cmp`: the numeric comparison on `Nat` with the identity rank -/
 example : Scalibr.Upgrade.RankFor (compare : Nat → Nat → Ordering) [0, 5, 7, 9] id := fun _ _ _ _ => rfl
 
-/-- Record level: with every range of the record well formed, `IsAffected` holds exactly when the
-specification's rule does (explicit listing, or an applicable range whose OSV evaluation is
-"vulnerable"), for the package's own ecosystem and name only. -/
+/-! ### record level -/
+
 theorem C18_range_type (a : Affected) (r : Range) : rangeApplies a r = matchingType a r := by
   unfold rangeApplies matchingType
   cases r.typ <;> simp
 
+/-- Record level: with every range of the record well formed, `IsAffected` holds exactly when the
+specification's rule does (explicit listing, or an applicable range in one of whose intervals the version lies),
+for the package's own ecosystem and name only. -/
 theorem C18_record (known : Nat → Bool) (vuln : List Affected) (p : Pkg)
     (hwf : ∀ a ∈ vuln, ∀ r ∈ a.ranges, WF r.events = true) :
     isAffected known vuln p = true ↔ specAffected known vuln p := by
@@ -101,12 +164,12 @@ theorem C18_record (known : Nat → Bool) (vuln : List Affected) (p : Pkg)
       refine ⟨a, ha, he, hn, ?_⟩
       rcases h with h | ⟨r, hr, hra, hrd⟩
       · exact Or.inl h
-      · exact Or.inr ⟨r, hr, by rw [← C18_range_type]; exact hra, by rw [← C18_range r.events p.version (hwf a ha r hr)]; exact hrd⟩
+      · exact Or.inr ⟨r, hr, by rw [← C18_range_type]; exact hra, by rw [← C18_range_decl r.events p.version (hwf a ha r hr)]; exact hrd⟩
     · rintro ⟨a, ha, he, hn, h⟩
       refine ⟨a, ha, ⟨he, hn⟩, ?_⟩
       rcases h with h | ⟨r, hr, hra, hrd⟩
       · exact Or.inl h
-      · exact Or.inr ⟨r, hr, by rw [C18_range_type]; exact hra, by rw [C18_range r.events p.version (hwf a ha r hr)]; exact hrd⟩
+      · exact Or.inr ⟨r, hr, by rw [C18_range_type]; exact hra, by rw [C18_range_decl r.events p.version (hwf a ha r hr)]; exact hrd⟩
   · simp [hk]
 
 /-- Records for other packages or ecosystems never match — whatever their ranges contain
@@ -124,31 +187,76 @@ theorem C18_unknown_ecosystem (known : Nat → Bool) (vuln : List Affected) (p :
     (h : known p.eco = false) : isAffected known vuln p = false := by
   simp [isAffected, h]
 
-/-- `slices.SortFunc`'s precondition: the event comparator is a strict weak order. -/
+/-- `slices.SortFunc`'s precondition: the event comparator is a strict weak order; moreover it is total on distinct
+events (so the sorted result does not depend on the sort's stability), and the sorted list is a permutation in
+non-decreasing version order. -/
 theorem C18_sort_pre :
     (∀ a b, evLt a b = true → evLt b a = false) ∧
     (∀ a b c, evLt b a = false → evLt c b = false → evLt c a = false) ∧
+    (∀ a b, evLt a b = false → evLt b a = false → a = b) ∧
     (∀ es : List Ev, (sortEvents es).Perm es ∧ (sortEvents es).Pairwise (fun a b => a.v ≤ b.v)) := by
-  refine ⟨evLt_asymm, evLt_trans, fun es => ⟨isort_perm evLt es, ?_⟩⟩
-  have := isort_pairwise evLt evLt_asymm evLt_trans es
-  refine this.imp ?_
-  intro a b h; unfold leOf evLt at h; simp at h; omega
+  refine ⟨evLt_asymm, evLt_trans, evLt_sep, fun es => ⟨isort_perm evLt es, ?_⟩⟩
+  refine (sortEvents_pairwise es).imp ?_
+  intro a b h
+  rcases Nat.lt_or_ge (key a) (key b) with h' | h'
+  · exact key_v_le a b h'
+  · have : a = b := evLt_sep a b ((evLt_false_iff a b).mpr h') ((evLt_false_iff b a).mpr h)
+    rw [this]; exact Nat.le_refl _
 
-/-! Non-vacuity: a concrete record meets the hypotheses, is listed out of order, and exercises the
-exact-hit, between-events and last_affected branches. -/
+/-! ### which ties are well formed -/
+
+/-- Events on ONE version `X` (here 5) that can be ordered to alternate unambiguously are well formed, in every listing
+order: `introduced X, last_affected X` (exactly X); `fixed X, introduced X` after an earlier opening (adjacent
+intervals); all three. Not well formed: `introduced X, fixed X` as an interval of its own (empty), a `fixed` and a
+`last_affected` on one version, the same event twice, a closing event on the version of the first opening. -/
+theorem C18_wf_tie_shapes :
+    WF [⟨.intro, 5⟩, ⟨.last, 5⟩] = true ∧ WF [⟨.last, 5⟩, ⟨.intro, 5⟩] = true ∧
+    WF [⟨.intro, 2⟩, ⟨.fixed, 5⟩, ⟨.intro, 5⟩] = true ∧ WF [⟨.intro, 5⟩, ⟨.fixed, 5⟩, ⟨.intro, 2⟩] = true ∧
+    WF [⟨.intro, 2⟩, ⟨.fixed, 5⟩, ⟨.intro, 5⟩, ⟨.last, 5⟩, ⟨.intro, 7⟩] = true ∧
+    WF [⟨.last, 5⟩, ⟨.intro, 7⟩, ⟨.intro, 5⟩, ⟨.intro, 2⟩, ⟨.fixed, 5⟩] = true ∧
+    WF [⟨.intro, 5⟩, ⟨.fixed, 5⟩] = false ∧ WF [⟨.intro, 2⟩, ⟨.fixed, 5⟩, ⟨.last, 5⟩] = false ∧
+    WF [⟨.intro, 5⟩, ⟨.intro, 5⟩] = false ∧ WF [⟨.intro, 2⟩, ⟨.last, 5⟩, ⟨.last, 5⟩] = false ∧
+    WF [⟨.intro, 2⟩, ⟨.last, 5⟩, ⟨.intro, 5⟩] = false := by decide
+
+/-! ### the defect this model no longer has (decided witnesses about the decision procedure BEFORE the repair) -/
+
+/-- Before the repair, a single-version interval whose closing event is listed first — `last_affected 2, introduced 2` —
+judged every later version affected (the stable sort kept `introduced 2` last, the "between events" rule saw it as the
+previous event); the specification says version 3 is not affected, and the repaired decision agrees. -/
+theorem C18_old_closing_listed_first :
+    WF [⟨.last, 2⟩, ⟨.intro, 2⟩] = true ∧ osvDecl [⟨.last, 2⟩, ⟨.intro, 2⟩] 3 = false ∧
+    rangeDecisionOld [⟨.last, 2⟩, ⟨.intro, 2⟩] 3 = true ∧ rangeDecision [⟨.last, 2⟩, ⟨.intro, 2⟩] 3 = false := by decide
+
+/-- Before the repair, adjacent intervals `[1, 2) [2, …)` listed in their natural order judged the version 2 itself
+unaffected (the binary search returns the first event on version 2, the `fixed`), and listed `introduced 2` first
+judged every version after 2 unaffected (`fixed 2` was then the previous event). -/
+theorem C18_old_adjacent_intervals :
+    WF [⟨.intro, 1⟩, ⟨.fixed, 2⟩, ⟨.intro, 2⟩] = true ∧ osvDecl [⟨.intro, 1⟩, ⟨.fixed, 2⟩, ⟨.intro, 2⟩] 2 = true ∧
+    rangeDecisionOld [⟨.intro, 1⟩, ⟨.fixed, 2⟩, ⟨.intro, 2⟩] 2 = false ∧
+    rangeDecision [⟨.intro, 1⟩, ⟨.fixed, 2⟩, ⟨.intro, 2⟩] 2 = true ∧
+    osvDecl [⟨.intro, 1⟩, ⟨.intro, 2⟩, ⟨.fixed, 2⟩] 3 = true ∧
+    rangeDecisionOld [⟨.intro, 1⟩, ⟨.intro, 2⟩, ⟨.fixed, 2⟩] 3 = false ∧
+    rangeDecision [⟨.intro, 1⟩, ⟨.intro, 2⟩, ⟨.fixed, 2⟩] 3 = true := by decide
+
+/-! Non-vacuity: a concrete record meets the hypotheses, is listed out of order, has events sharing a version, and
+exercises the exact-hit (one and several events), between-events and last_affected branches. -/
 def exEvents : List Ev := [⟨.fixed, 5⟩, ⟨.intro, 0⟩, ⟨.last, 9⟩, ⟨.intro, 7⟩]
 example : WF exEvents = true := by decide
 example : (rangeDecision exEvents 3, rangeDecision exEvents 5, rangeDecision exEvents 9, rangeDecision exEvents 10)
     = (true, false, true, false) := by decide
 example : (osvDecl exEvents 3, osvDecl exEvents 5, osvDecl exEvents 9, osvDecl exEvents 10) = (true, false, true, false) := by decide
 
-example : ∀ a b, a ∈ exEvents → b ∈ exEvents → a.v = b.v → a = b := by
-  have h : ∀ a ∈ exEvents, ∀ b ∈ exEvents, a.v = b.v → a = b := by decide
-  intro a b ha hb; exact h a ha b hb
+def exTies : List Ev := [⟨.last, 7⟩, ⟨.intro, 5⟩, ⟨.intro, 7⟩, ⟨.fixed, 5⟩, ⟨.intro, 0⟩, ⟨.fixed, 7⟩]
+example : WF exTies = true := by decide
+example : (rangeDecision exTies 4, rangeDecision exTies 5, rangeDecision exTies 6, rangeDecision exTies 7, rangeDecision exTies 8)
+    = (true, true, true, true, false) := by decide
+example : (osvDecl exTies 4, osvDecl exTies 5, osvDecl exTies 6, osvDecl exTies 7, osvDecl exTies 8)
+    = (true, true, true, true, false) := by decide
 
-/-- Outside the hypothesis the code and the OSV evaluation really differ (so `WF` is not decoration):
-two `introduced` events in a row followed by a `fixed`. -/
+/-- Outside the hypothesis the code and the specification really differ (so `WF` is not decoration): a `last_affected`
+that closes nothing — the code's exact-hit rule answers "affected" on it, no interval contains the version. -/
 theorem C18_illformed_differs :
-    rangeDecision [⟨.intro, 1⟩, ⟨.fixed, 1⟩] 1 ≠ osvRange [⟨.intro, 1⟩, ⟨.fixed, 1⟩] 1 := by decide
+    rangeDecision [⟨.last, 1⟩] 1 ≠ osvDecl [⟨.last, 1⟩] 1 ∧
+    rangeDecision [⟨.intro, 1⟩, ⟨.fixed, 2⟩, ⟨.last, 2⟩] 2 ≠ osvDecl [⟨.intro, 1⟩, ⟨.fixed, 2⟩, ⟨.last, 2⟩] 2 := by decide
 
 end Scalibr.Vulns
